@@ -683,6 +683,10 @@ class OrbitBase(TidalPyClass):
         world_index = self.world_signature_to_index(world_signature, return_tidal_host=set_stellar_orbit)
         world = self.tidal_objects[world_index]
 
+        # The tidal host's signature points at the orbit of its tide raiser. If the host made this call through its own
+        #    `set_state` then `world` is the tide raiser, which does not know that its orbit is being changed.
+        set_by_tidal_host = set_by_world and (world_signature is self.tidal_host) and (world is not self.tidal_host)
+
         if set_stellar_orbit and self.star is None:
             # If doing a stellar orbit update, but there is no Star, then don't bother loading anything in for the
             #    world.
@@ -728,7 +732,7 @@ class OrbitBase(TidalPyClass):
                 #    match the new orbital frequency.
                 world_index = self.world_signature_to_index(world_signature, return_tidal_host=set_stellar_orbit)
                 world_instance = self.tidal_objects[world_index]
-                if world_instance.force_spin_sync and not set_by_world:
+                if world_instance.force_spin_sync and (not set_by_world or set_by_tidal_host):
                     log.debug(
                         f'World, {world_instance}, orbital frequency changed but it is forced into synchronous '
                         f'rotation; changing spin-rate to match new orbital frequency.'
@@ -748,6 +752,15 @@ class OrbitBase(TidalPyClass):
                 self.orbit_changed(
                     world, orbital_freq_changed=orbital_freq_changed,
                     eccentricity_changed=eccentricity_provided
+                    )
+            elif set_by_tidal_host:
+                # The tidal host will update itself, but its tide raiser (whose orbit just changed) must be told here.
+                world.orbit_spin_changed(
+                    orbital_freq_changed=orbital_freq_changed,
+                    spin_freq_changed=spin_freq_changed,
+                    eccentricity_changed=eccentricity_provided,
+                    obliquity_changed=False,
+                    call_orbit_dissipation=False
                     )
             else:
                 # If orbit_changed not called, then there will be no check if the tidal host's tides need to be updated.
